@@ -2,7 +2,7 @@ import Firefly.Model.Ring
 /-! Lemmas about the ring-buffer model (C16). Core Lean only. -/
 namespace Firefly.Ring
 
-theorem N_eq_pow : N = 2 ^ Firefly.Gen.C16.ringBufferBits := by decide
+theorem N_eq_pow : N = 2 ^ Firefly.Gen.C16.ringBufferBits := by unfold N; decide
 theorem N_pos : 0 < N := by rw [N_eq_pow]; exact Nat.two_pow_pos _
 
 theorem and_mask (x : Nat) : x &&& mask = x % N := by
@@ -52,7 +52,7 @@ theorem writeByte_wf (rb : Ring) (b : UInt8) (h : rb.WF) : (rb.writeByte b).WF :
   · rw [hr]; split <;> (try split) <;> omega
   · rw [hw]; split <;> omega
 
-theorem N_ge_two : 2 ≤ N := by decide
+theorem N_ge_two : 2 ≤ N := by unfold N; decide
 
 theorem slice_length (rb : Ring) (s n : Nat) : (rb.slice s n).length = n := by simp [Ring.slice]
 
